@@ -34,6 +34,66 @@ class QuantTup(namedtuple("QuantTup", ["cls", "value_prop", "units_prop"])):
     """
 
 
+class _ValueTextWrapper(textwrap.TextWrapper):
+    """A TextWrapper for the text of PVL Values: line breaks are only
+    placed at white space that is not part of a quoted string or a
+    units expression.
+
+    If *fold_text* is True, double-quoted strings may be broken at
+    their white space, too (ODL Text Strings are folded when read),
+    but never directly after a dash, which would then be read as a
+    line continuation and removed.
+    """
+
+    _span_re = re.compile(r"\"[^\"]*\"|'[^']*'|<[^>]*>")
+
+    def __init__(self, fold_text=False, **kwargs):
+        super().__init__(**kwargs)
+        self.fold_text = fold_text
+
+    def _split_text_string(self, text):
+        chunks = list()
+        for chunk in super()._split(text):
+            if (
+                len(chunks) > 1
+                and chunks[-1].strip() == ""
+                and chunks[-2].endswith("-")
+            ):
+                space = chunks.pop()
+                chunks[-1] += space + chunk
+            else:
+                chunks.append(chunk)
+        return chunks
+
+    def _split(self, text):
+        pieces = list()
+        pos = 0
+        for match in self._span_re.finditer(text):
+            pieces.extend(super()._split(text[pos:match.start()]))
+            if self.fold_text and match.group().startswith('"'):
+                pieces.extend(self._split_text_string(match.group()))
+            else:
+                pieces.append(match.group())
+            pos = match.end()
+        pieces.extend(super()._split(text[pos:]))
+
+        # Breaks are only allowed where there was white space, so join
+        # neighbors that had none between them.
+        chunks = list()
+        for piece in pieces:
+            if piece == "":
+                continue
+            if (
+                len(chunks) > 0
+                and chunks[-1].strip() != ""
+                and piece.strip() != ""
+            ):
+                chunks[-1] += piece
+            else:
+                chunks.append(piece)
+        return chunks
+
+
 class PVLEncoder(object):
     """An encoder based on the rules in the CCSDS-641.0-B-2 'Blue Book'
     which defines the PVL language.
@@ -195,8 +255,9 @@ class PVLEncoder(object):
             (preq, _, posteq) = s.partition("=")
             new_prefix = prefix + preq.strip() + " = "
 
-            lines = textwrap.wrap(
-                posteq.strip(),
+            # Lines may only be broken where white space is insignificant.
+            wrapper = _ValueTextWrapper(
+                fold_text=isinstance(self.decoder, ODLDecoder),
                 width=(self.width - len(self.newline)),
                 replace_whitespace=False,
                 expand_tabs=False,
@@ -205,7 +266,7 @@ class PVLEncoder(object):
                 break_long_words=False,
                 break_on_hyphens=False,
             )
-            return self.newline.join(lines)
+            return self.newline.join(wrapper.wrap(posteq.strip()))
         else:
             return prefix + s
 
